@@ -28,7 +28,7 @@ logging.disable(logging.CRITICAL)
 import strax  # noqa: E402
 import hplugins as H  # noqa: E402
 
-CLASSES = [dict(t=1, name="SrcS", ver=0, d=1, uid=1, nv=1),
+CLASSES = [dict(t=1, name="SrcS", ver=0, d=1, uid=1, nv=1), dict(t=1, name="SrcS", ver=0, d=2, uid=8, nv=1),
            dict(t=2, name="MidA", ver=0, d=1, uid=2, nv=2), dict(t=2, name="MidA", ver=0, d=2, uid=3, nv=2),
            dict(t=2, name="MidA", ver=1, d=1, uid=4, nv=4), dict(t=2, name="MidB", ver=0, d=1, uid=5, nv=5),
            dict(t=3, name="TopT", ver=0, d=1, uid=6, nv=6), dict(t=3, name="TopT", ver=0, d=2, uid=7, nv=6)]
